@@ -1,7 +1,8 @@
 pub mod c09;
 pub mod c10;
+pub mod c15;
 pub mod events;
 pub mod fam_gen;
 #[cfg(feature = "extra_zoo")]
 pub mod fam_gen_extra;
-pub mod isolate;
+pub use vutil::isolate;
